@@ -254,9 +254,17 @@ class C03(Prop):
             for order in (("rows", "cols", "other", "rows"), ("cols", "rows", "other-same-size", "cols"), ("other", "rows", "cols", "same"),
                           ("rows", "rows", "cols", "cols")):
                 rng = random.Random(f"C03-history-{how}-{order}")
-                script = [{"path": 0, "what": w, "acq": q, "how": how, "calls": cs, "mutate": q == 1}
+                script = [{"path": 0, "what": w, "acq": q, "how": how, "calls": cs, "mutate": q in (1, 3)}
                           for q, (w, cs) in enumerate(zip(order, (["sniff", "load"], ["sniff", "load", "data", "params"], ["load", "sniff"], ["load", "load"])))]
                 yield gen_thermo.generate_history(rng, tier, script=script)
+        # one path, one layout, the three delimiter / decimal-mark pairs one after the other (every order of the pairs comes up over
+        # the six scripts), imported through load and through the readers each time
+        for how in ("keep", "replace-keep", "clock-1s"):
+            for lay in ("rows", "cols"):
+                rng = random.Random(f"C03-history-decimal-{how}-{lay}")
+                script = [{"path": 0, "what": lay, "acq": q % 3, "how": how, "calls": ["load", "data"] if q % 2 else ["load", "params", "load"],
+                           "mutate": False} for q in range(7)]
+                yield gen_thermo.generate_history(rng, tier, script=script, nacq=3)
         for order in (("rows", "cols"), ("cols", "other"), ("other", "rows")):
             rng = random.Random(f"C03-history-alternate-{order}")
             script = [{"path": q % 2, "what": order[q % 2] if q < 2 else (None if q < 4 else order[(q + 1) % 2]), "acq": q % 2, "how": "keep",
@@ -731,8 +739,10 @@ class C03(Prop):
                                 feats.add("history:rewrite:same-content")
                             else:
                                 feats.add(f"history:rewrite:{a}->{b}")
-                                if a == b and a != "other" and (contents[before]["delimiter"], contents[before]["decimal"]) != (contents[w]["delimiter"], contents[w]["decimal"]):
+                                if "other" not in (a, b) and (contents[before]["delimiter"], contents[before]["decimal"]) != (contents[w]["delimiter"], contents[w]["decimal"]):
                                     feats.add("history:rewrite:other-delimiter-or-decimal")
+                                    if kept and (contents[before]["decimal"] == ",") != (contents[w]["decimal"] == ","):
+                                        feats.add("history:rewrite:other-decimal-mark-same-mtime")
                                 if a != b and a in sniffed.get(p, ()):
                                     feats.add("history:stale-answer-possible:" + ("mtime-kept" if kept else "mtime-" + how))
                                 if gen_thermo.content_size(contents[before]) == gen_thermo.content_size(contents[w]) and kept:
